@@ -1689,4 +1689,217 @@ theorem guarded_run {P : Prog} (n : Nat) {m : M} (h : Guarded m) :
     · have := ih (guarded_step (P := P) h)
       exact ⟨this.1, by rw [this.2, guarded_no_opRaised h]⟩
 
+/-! ## listener wiring: handler-name parsing and the autoBind prefix rule -/
+
+theorem splitU_ne_nil (s : List Char) : splitU s ≠ [] := by
+  induction s with
+  | nil => simp [splitU]
+  | cons c cs ih =>
+    simp only [splitU]
+    split
+    · simp
+    · split <;> simp
+
+theorem splitU_append (a b : List Char) : splitU (a ++ '_' :: b) = splitU a ++ splitU b := by
+  induction a with
+  | nil =>
+    simp only [List.nil_append, splitU]
+    cases h : splitU b with
+    | nil => exact absurd h (splitU_ne_nil b)
+    | cons w ws => simp
+  | cons c a ih =>
+    simp only [List.cons_append, splitU, ih]
+    cases h : splitU a with
+    | nil => exact absurd h (splitU_ne_nil a)
+    | cons w ws =>
+      simp only [List.cons_append]
+      split <;> simp
+
+theorem splitU_noU (e : List Char) (h : '_' ∉ e) : splitU e = [e] := by
+  induction e with
+  | nil => rfl
+  | cons c e ih =>
+    have hc : c ≠ '_' := fun hc => h (by simp [hc])
+    have he : '_' ∉ e := fun hm => h (by simp [hm])
+    simp [splitU, ih he, hc]
+
+theorem joinU_splitU (s : List Char) : joinU (splitU s) = s := by
+  induction s with
+  | nil => rfl
+  | cons c cs ih =>
+    simp only [splitU]
+    cases h : splitU cs with
+    | nil => exact absurd h (splitU_ne_nil cs)
+    | cons w ws =>
+      rw [h] at ih
+      by_cases hc : c = '_'
+      · subst hc
+        simp only [if_true]
+        show [] ++ '_' :: joinU (w :: ws) = '_' :: cs
+        rw [ih]; rfl
+      · simp only [hc, if_false]
+        cases ws with
+        | nil => simp only [joinU] at ih ⊢; rw [ih]
+        | cons w' ws' =>
+          simp only [joinU] at ih ⊢
+          rw [← ih]; rfl
+
+theorem dropLast_append_singleton (l : List (List Char)) (x : List Char) : (l ++ [x]).dropLast = l := by
+  simp
+
+/-- **parsing**: for every component name `c` (any characters, underscores included, even empty) and every event name without
+an underscore, the handler `_handle_<c>_<e>` names exactly the component `c`. -/
+theorem handlerComponent_spec (c e : List Char) (he : '_' ∉ e) : handlerComponentL (handlerName c e) = some c := by
+  have hp : handlePrefix.isPrefixOf (handlerName c e) = true := by
+    simp [handlerName, handlePrefix, List.isPrefixOf]
+  have hs : splitU (handlerName c e) = [[], ['h', 'a', 'n', 'd', 'l', 'e']] ++ (splitU c ++ [e]) := by
+    have : handlerName c e = [] ++ '_' :: (['h', 'a', 'n', 'd', 'l', 'e'] ++ '_' :: (c ++ '_' :: e)) := by
+      simp [handlerName, handlePrefix]
+    rw [this, splitU_append, splitU_append, splitU_append, splitU_noU e he]
+    rfl
+  have hlen : ¬ (splitU (handlerName c e)).length < 4 := by
+    rw [hs]
+    have := splitU_ne_nil c
+    cases hsc : splitU c with
+    | nil => exact absurd hsc this
+    | cons w ws => simp
+  simp only [handlerComponentL, hp, if_true, hlen, if_false]
+  rw [hs]
+  simp [joinU_splitU]
+
+theorem isPrefixOf_append_self (p s : List Char) : p.isPrefixOf (p ++ s) = true := by
+  induction p with
+  | nil => simp [List.isPrefixOf]
+  | cons a p ih => simp [List.isPrefixOf, ih]
+
+/-- **binding**: `addListeners(sink, prefix=c)` binds `_handle_<c>_<e>` to the event named `e` (component names that are
+non-empty and do not start with an underscore; `e` arbitrary). -/
+theorem boundEvent_spec (c e : List Char) (ch : Char) (cs : List Char) (hc : c = ch :: cs) (hch : ch ≠ '_') :
+    boundEventL c (handlerName c e) = some e := by
+  subst hc
+  have hb : bindPrefixL (ch :: cs) = '_' :: ch :: cs := by simp [bindPrefixL, hch]
+  have hn : handlerName (ch :: cs) e = (['_', 'h', 'a', 'n', 'd', 'l', 'e'] ++ bindPrefixL (ch :: cs) ++ ['_']) ++ e := by
+    simp [handlerName, handlePrefix, hb]
+  simp only [boundEventL]
+  rw [hn, isPrefixOf_append_self]
+  simp
+
+theorem mem_dedupG {α} [DecidableEq α] (l : List α) (a : α) : a ∈ dedupG l ↔ a ∈ l := by
+  induction l with
+  | nil => simp [dedupG]
+  | cons b l ih =>
+    simp only [dedupG]
+    split
+    · rename_i hb
+      constructor
+      · intro h; exact List.mem_cons_of_mem _ (ih.1 h)
+      · intro h
+        rcases List.mem_cons.1 h with rfl | h
+        · exact hb
+        · exact ih.2 h
+    · simp [ih]
+
+theorem nodup_dedupG {α} [DecidableEq α] (l : List α) : (dedupG l).Nodup := by
+  induction l with
+  | nil => simp [dedupG]
+  | cons b l ih =>
+    simp only [dedupG]
+    split
+    · exact ih
+    · rename_i hb; exact List.nodup_cons.2 ⟨hb, ih⟩
+
+theorem listenDeps_mem (explicit attrs : List Str) (c : Str) :
+    c ∈ listenDepsL explicit attrs ↔ c ∈ explicit ∨ ∃ a ∈ attrs, handlerComponentL a = some c := by
+  simp [listenDepsL, mem_dedupG, List.mem_filterMap]
+
+theorem wiring_mem (deps attrs : List Str) (events : Str → Option (List Str)) (a c e : Str) :
+    (a, c, e) ∈ wiringL deps attrs events ↔
+      c ∈ deps ∧ a ∈ attrs ∧ boundEventL c a = some e ∧ ∃ evs, events c = some evs ∧ e ∈ evs := by
+  simp only [wiringL, List.mem_flatMap]
+  constructor
+  · rintro ⟨c', hc', hm⟩
+    cases hev : events c' with
+    | none => rw [hev] at hm; cases hm
+    | some evs =>
+      rw [hev] at hm
+      simp only [List.mem_filterMap] at hm
+      obtain ⟨a', ha', hm⟩ := hm
+      cases hb : boundEventL c' a' with
+      | none => rw [hb] at hm; cases hm
+      | some ev =>
+        rw [hb] at hm
+        simp only at hm
+        split at hm
+        · rename_i hin
+          injection hm with hm
+          injection hm with h1 h2
+          injection h2 with h2 h3
+          subst h1 h2 h3
+          exact ⟨hc', ha', hb, evs, hev, hin⟩
+        · cases hm
+  · rintro ⟨hc, ha, hb, evs, hev, hin⟩
+    refine ⟨c, hc, ?_⟩
+    rw [hev]
+    simp only [List.mem_filterMap]
+    exact ⟨a, ha, by simp [hb, hin]⟩
+
+theorem bindOne_fst {c : Str} {evs : List Str} {a : Str} {t : Str × Str × Str}
+    (h : (match boundEventL c a with
+          | some ev => if ev ∈ evs then some (a, c, ev) else none
+          | none => none) = some t) : t.1 = a := by
+  cases hb : boundEventL c a with
+  | none => rw [hb] at h; cases h
+  | some ev =>
+    rw [hb] at h; simp only at h
+    split at h
+    · injection h with h; rw [← h]
+    · cases h
+
+theorem wiring_one_nodup (c : Str) (evs : List Str) (attrs : List Str) (ha : attrs.Nodup) :
+    (attrs.filterMap fun a =>
+        match boundEventL c a with
+        | some ev => if ev ∈ evs then some (a, c, ev) else none
+        | none => none).Nodup := by
+  induction attrs with
+  | nil => simp
+  | cons a as iha =>
+    have ha' : a ∉ as := (List.nodup_cons.1 ha).1
+    have has := (List.nodup_cons.1 ha).2
+    simp only [List.filterMap_cons]
+    split
+    · exact iha has
+    · rename_i t ht
+      refine List.nodup_cons.2 ⟨?_, iha has⟩
+      intro hm
+      simp only [List.mem_filterMap] at hm
+      obtain ⟨a', ha'm, hg⟩ := hm
+      have e1 := bindOne_fst ht
+      have e2 := bindOne_fst hg
+      exact ha' (by rw [← e1, e2]; exact ha'm)
+
+/-- each handler attribute is bound at most once per component: the list of listeners added has no duplicates -/
+theorem wiring_nodup (deps attrs : List Str) (events : Str → Option (List Str)) (hd : deps.Nodup) (ha : attrs.Nodup) :
+    (wiringL deps attrs events).Nodup := by
+  induction deps with
+  | nil => simp [wiringL]
+  | cons c cs ih =>
+    have hc : c ∉ cs := (List.nodup_cons.1 hd).1
+    have hcs := (List.nodup_cons.1 hd).2
+    have hsplit : wiringL (c :: cs) attrs events = wiringL [c] attrs events ++ wiringL cs attrs events := by
+      simp [wiringL]
+    rw [hsplit, List.nodup_append]
+    refine ⟨?_, ih hcs, ?_⟩
+    · simp only [wiringL, List.flatMap_cons, List.flatMap_nil, List.append_nil]
+      cases events c with
+      | none => simp
+      | some evs => exact wiring_one_nodup c evs attrs ha
+    · intro x hx y hy hxy
+      subst hxy
+      obtain ⟨a, c', e⟩ := x
+      have h1 := (wiring_mem [c] attrs events a c' e).1 hx
+      have h2 := (wiring_mem cs attrs events a c' e).1 hy
+      have : c' = c := by simpa using h1.1
+      subst this
+      exact hc h2.1
+
 end Pox.Core
